@@ -14,7 +14,7 @@ is the number of bytes written, and the content path of the computed integrity e
 def CommitPost (w : Writer) (r : Res Integrity) (fs' : FS) : Prop :=
   ∀ sri, r = Except.ok sri →
     let wsri := Sri.compute cfg.H w.algo w.hashed
-    (sri = wsri ∨ w.opts.sri = some sri) ∧ (w.opts.sri = none → sri = wsri) ∧
+    sri = (if w.key.isSome then w.opts.sri.getD wsri else wsri) ∧ (w.opts.sri = none → sri = wsri) ∧
     (∀ s, w.opts.sri = some s → (Sri.matchesSri s wsri).isSome) ∧
     (∀ n, w.opts.size = some n → n = w.written) ∧
     ∃ cpath, contentPath cache wsri = some cpath ∧ (fs'.get cpath).isSome
@@ -29,7 +29,7 @@ theorem existsFollow_get {fs : FS} {p : Path} (hp : p ≠ []) (h : fs.existsFoll
 
 theorem commitChecks_ok {w : Writer} {wsri recorded : Integrity}
     (h : commitChecks w wsri = .ok recorded) :
-    (recorded = wsri ∨ w.opts.sri = some recorded) ∧ (w.opts.sri = none → recorded = wsri) ∧
+    recorded = w.opts.sri.getD wsri ∧ (w.opts.sri = none → recorded = wsri) ∧
     (∀ s, w.opts.sri = some s → (Sri.matchesSri s wsri).isSome) ∧
     (∀ n, w.opts.size = some n → n = w.written) := by
   unfold commitChecks commitChecks.sizeCheck at h
@@ -46,12 +46,12 @@ theorem commitChecks_ok {w : Writer} {wsri recorded : Integrity}
         · cases h
         · rename_i hne
           cases h
-          refine ⟨Or.inr hs, fun h0 => (by rw [hs] at h0; cases h0), ?_, ?_⟩
+          refine ⟨by rw [hs]; rfl, fun h0 => (by rw [hs] at h0; cases h0), ?_, ?_⟩
           · intro s' hs'; rw [hs] at hs'; cases hs'; exact hm'
           · intro n' hn'; rw [hn] at hn'; cases hn'; exact Decidable.of_not_not hne
       · rename_i hn
         cases h
-        refine ⟨Or.inr hs, fun h0 => (by rw [hs] at h0; cases h0), ?_, ?_⟩
+        refine ⟨by rw [hs]; rfl, fun h0 => (by rw [hs] at h0; cases h0), ?_, ?_⟩
         · intro s' hs'; rw [hs] at hs'; cases hs'; exact hm'
         · intro n' hn'; rw [hn] at hn'; cases hn'
   · rename_i hs
@@ -61,12 +61,12 @@ theorem commitChecks_ok {w : Writer} {wsri recorded : Integrity}
       · cases h
       · rename_i hne
         cases h
-        refine ⟨Or.inl rfl, fun _ => rfl, ?_, ?_⟩
+        refine ⟨by rw [hs]; rfl, fun _ => rfl, ?_, ?_⟩
         · intro s' hs'; rw [hs] at hs'; cases hs'
         · intro n' hn'; rw [hn] at hn'; cases hn'; exact Decidable.of_not_not hne
     · rename_i hn
       cases h
-      refine ⟨Or.inl rfl, fun _ => rfl, ?_, ?_⟩
+      refine ⟨by rw [hs]; rfl, fun _ => rfl, ?_, ?_⟩
       · intro s' hs'; rw [hs] at hs'; cases hs'
       · intro n' hn'; rw [hn] at hn'; cases hn'
 
@@ -112,10 +112,11 @@ theorem wcommit_wp (w : Writer) {fs : FS} (hc : w.cache = cache)
         have := hr2 sri hsri
         simp only [Option.getD_some] at this
         subst this
-        exact ⟨hck.1, hck.2.1, hck.2.2.1, hck.2.2.2, cpath, hcp, by rw [hg2]; exact hsome⟩
+        exact ⟨by simp [hk, hck.1], hck.2.1, hck.2.2.1, hck.2.2.2, cpath, hcp, by rw [hg2]; exact hsome⟩
       · refine wpD_done cfg env cache hv1 ?_
         intro sri hsri; cases hsri
-        exact ⟨Or.inl hws, fun _ => hws, hck.2.2.1, hck.2.2.2, cpath, hcp, hsome⟩
+        rename_i hk
+        exact ⟨by simp [hk, hws], fun _ => hws, hck.2.2.1, hck.2.2.2, cpath, hcp, hsome⟩
 
 /-- A whole streamed write: open with any options, feed any chunks, commit (or clean up after a
 failed chunk). -/
@@ -132,17 +133,17 @@ def writeStream (fl : Flavour) (key : Option Bytes) (o : WriteOpts) (chunks : Li
 the declared one, or — when none was declared — the digest of all the bytes fed; the declaration
 is satisfied by that digest; a declared size equals the byte count; and the content path of that
 digest exists. -/
-def StreamPost (o : WriteOpts) (chunks : List Bytes) (r : Res Integrity) (fs' : FS) : Prop :=
+def StreamPost (key : Option Bytes) (o : WriteOpts) (chunks : List Bytes) (r : Res Integrity) (fs' : FS) : Prop :=
   ∀ sri, r = Except.ok sri →
     let wsri := Sri.compute cfg.H (o.algo.getD .sha256) chunks.flatten
-    (sri = wsri ∨ o.sri = some sri) ∧ (o.sri = none → sri = wsri) ∧
+    sri = (if key.isSome then o.sri.getD wsri else wsri) ∧ (o.sri = none → sri = wsri) ∧
     (∀ s, o.sri = some s → (Sri.matchesSri s wsri).isSome) ∧
     (∀ n, o.size = some n → n = chunks.flatten.length) ∧
     ∃ cpath, contentPath cache wsri = some cpath ∧ (fs'.get cpath).isSome
 
 theorem writeStream_wp (fl : Flavour) (key : Option Bytes) (o : WriteOpts) (chunks : List Bytes)
     {fs : FS} (hq : ContentValid cfg cache fs) :
-    wpD env (ContentValid cfg cache) (StreamPost cfg cache o chunks)
+    wpD env (ContentValid cfg cache) (StreamPost cfg cache key o chunks)
       (writeStream cfg cache fl key o chunks) fs := by
   unfold writeStream
   simp only [bind_eq, pure_eq]
@@ -152,7 +153,7 @@ theorem writeStream_wp (fl : Flavour) (key : Option Bytes) (o : WriteOpts) (chun
   split
   · exact wpD_done cfg env cache hv1 (fun s h => by cases h)
   · rename_i w
-    obtain ⟨hc, _, ho, hw0, hh0, ha, hi⟩ := hp w rfl
+    obtain ⟨hc, hk0, ho, hw0, hh0, ha, hi⟩ := hp w rfl
     apply wpD_bind
     refine wpD_mono ?_ (wpD_withQ (wwriteAll_wp cfg env cache w chunks hc hv1 hi))
     intro r2 fs2 ⟨hv2, hp2⟩
@@ -166,7 +167,7 @@ theorem writeStream_wp (fl : Flavour) (key : Option Bytes) (o : WriteOpts) (chun
       refine wpD_mono ?_ (wcommit_wp cfg env cache w' (hs.1.trans hc) hv2 hi')
       intro r3 fs3 hp3 sri hsri
       have := hp3 sri hsri
-      rw [hh, hh0, List.nil_append, ha', ha, ho', ho, hw, hw0, Nat.zero_add] at this
+      rw [hh, hh0, List.nil_append, ha', ha, ho', ho, hw, hw0, Nat.zero_add, hs.2.2, hk0] at this
       exact this
 
 theorem write_eq_stream (fl : Flavour) (algo : Algo) (key data : Bytes) :
